@@ -46,7 +46,7 @@ Q10 = [("timers", 30000), ("restart", 6000), ("handles", 6000), ("kinds", 6000),
 Q11 = [("timeout", 40000), ("mailbox", 8000), ("lifecycle", 8000), ("backpressure", 4000), ("stream", 8000), ("timeout0", 3000), ("mix", 10000)]
 Q13 = [("stream", 30000), ("lifecycle", 10000), ("owning", 6000), ("mix", 10000)]
 Q14 = [("liveness", 30000), ("lifecycle", 10000), ("handles", 6000), ("faults+faults", 200), ("mix", 10000)]
-Q15 = [("kinds", 30000), ("handles", 12000), ("restart", 4000), ("lifecycle", 4000), ("mix", 10000)]
+Q15 = [("kinds", 30000), ("handles", 12000), ("droprace", 2000), ("broker", 8000), ("restart", 4000), ("lifecycle", 4000), ("mix", 10000)]
 
 Q06 = [("faults+faults", 700), ("tree+faults", 500), ("svcfaults+faults", 300), ("lifecycle+faults", 300), ("timeout", 8000), ("mix+faults", 200), ("broker+faults", 150)]
 Q16 = [("tree", 30000), ("tree+faults", 300), ("faults", 4000), ("mix", 10000)]
@@ -114,8 +114,8 @@ PLANS = {
     "C15": plan(Q15, scale(Q15, 40),
                 "a context operation, weak upgrade or timer was observed while neither an Addr nor an OwningAddr was alive",
                 ["C15.R1.ctx_stop_ok", "C15.R2.ctx_restart_ok", "C15.R3.timers_keep_firing", "C15.R4.upgrade_while_strong",
-                 "C15.R5.same_actor_through_conversions"],
-                mt=[('kinds', 480), ('mix', 160)], mt_required=['L2:C15.R1.ctx_stop_ok', 'L2:C15.R4.upgrade_while_strong', 'L2:C15.R5.same_actor_through_conversions']),
+                 "C15.R5.same_actor_through_conversions", "C15.R5.same_subscriber_through_conversions", "C15.R6.runs_while_any_strong_handle_is_held"],
+                mt=[('kinds', 480), ('mix', 160), ('droprace', 640)], mt_required=['L2:C15.R1.ctx_stop_ok', 'L2:C15.R4.upgrade_while_strong', 'L2:C15.R5.same_actor_through_conversions', 'L2:C15.R6.runs_while_any_strong_handle_is_held']),
     "C06": plan(Q06, scale(Q06, 40),
                 "a fault was injected and hit (every run except the fault-free base run of each program)",
                 ["C06.R1.ops_resolved", "C06.R1.later_ops_err", "C06.R1.pending_ops_err", "C06.R2.await_err", "C06.R2.join_none",
